@@ -149,10 +149,12 @@ namespace Dune
       template<typename T>
       void deallocate(T* ptr, size_type n = 0) noexcept
       {
-        // compute page address
+        // compute page address: a block whose size is a multiple of the
+        // page size starts on a page boundary, one page above the mapping
+        std::uintptr_t page_offset = (std::uintptr_t)(ptr) % page_size;
         void* page_ptr =
           static_cast<void*>(
-            (char*)(ptr) - ((std::uintptr_t)(ptr) % page_size));
+            (char*)(ptr) - (page_offset ? page_offset : page_size));
         // search list
         AllocationList::iterator it;
         unsigned int i = 0;
